@@ -140,6 +140,9 @@ func (eval Evaluator) AutomorphismHoistedLazy(levelQ int, ctIn *Ciphertext, c1De
 
 		if levelP > -1 {
 			ringQ.MulScalarBigint(ctIn.Value[0], ringP.ModulusAtLevel[levelP], ctTmp.Value[1].Q)
+		} else {
+			// no special modulus: the term to add is ctIn.Value[0] itself (P = 1)
+			ctTmp.Value[1].Q.CopyLvl(levelQ, ctIn.Value[0])
 		}
 
 		ringQ.Add(ctTmp.Value[0].Q, ctTmp.Value[1].Q, ctTmp.Value[0].Q)
@@ -151,6 +154,9 @@ func (eval Evaluator) AutomorphismHoistedLazy(levelQ int, ctIn *Ciphertext, c1De
 
 		if levelP > -1 {
 			ringQ.MulScalarBigint(ctIn.Value[0], ringP.ModulusAtLevel[levelP], ctTmp.Value[1].Q)
+		} else {
+			// no special modulus: the term to add is ctIn.Value[0] itself (P = 1)
+			ctTmp.Value[1].Q.CopyLvl(levelQ, ctIn.Value[0])
 		}
 
 		ringQ.Add(ctTmp.Value[0].Q, ctTmp.Value[1].Q, ctTmp.Value[0].Q)
